@@ -185,6 +185,27 @@ def _near_collinear_triple(rng, prec):
     return a, b, c
 
 
+def near_parallel_geometry(rng, big=True):
+    """A = (0,0) -> (4L, 4k); B starts at a lattice point a hair above A's line and is a hair shallower, so that the
+    two cross at an angle of about k d / (3 L^2) (1e-9 .. 1e-5 rad) well inside both segments (r < d)"""
+    k = rng.randint(1, 4)
+    L = k * rng.choice([2500, 10000, 25000, 250] if big else [250, 500])
+    d = rng.choice([2, 3, 3, 5])
+    r = rng.randint(1, d - 1)
+    m = rng.randint(1, 2 * k)
+    p1, q1 = (0, 0), (4 * L, 4 * k)
+    p2 = (m * (L // k) - r, m)
+    q2 = (p2[0] + 3 * L + d, p2[1] + 3 * k)
+    return (p1, q1), (p2, q2), L
+
+
+def _near_parallel_pair(rng, prec):
+    (p1, q1), (p2, q2), _ = near_parallel_geometry(rng, big=(prec == "f64"))
+    if rng.random() < 0.5:
+        return (p2, q2), (p1, q1)
+    return (p1, q1), (p2, q2)
+
+
 def function_cases(rng, n, prec="f64", dbg=False):
     cases = []
     per = 25
@@ -198,9 +219,11 @@ def function_cases(rng, n, prec="f64", dbg=False):
             for v in [0.0, -0.0, 1.0, -1.0, 2.0 ** rng.randint(-20, 20), -(2.0 ** rng.randint(-20, 20)), rng.uniform(-100, 100), rng.uniform(-1e-3, 1e-3)]:
                 c.run("NEXTAFTER %s %s" % (prec, num.enc(_r(prec, v))))
         for _ in range(per):
-            kind = rng.choice(["lat", "lat", "big", "float", "collinear", "collinear", "corner", "shared", "nearvert", "nearvert"])
+            kind = rng.choice(["lat", "lat", "big", "float", "collinear", "collinear", "corner", "shared", "nearvert", "nearvert", "nearpar", "nearpar"])
             if kind == "nearvert":
                 (p1, q1), (p2, q2) = _near_vertical_pair(rng, prec)
+            elif kind == "nearpar":
+                (p1, q1), (p2, q2) = _near_parallel_pair(rng, prec)
             elif kind == "collinear":
                 (p1, q1), (p2, q2) = _collinear_pair(rng, prec)
             elif kind == "corner":
